@@ -224,7 +224,7 @@ Fixpoint mentions (names : list (bytes * bytes)) (fuel : nat) (t : texpr) {struc
       end
   end.
 
-Definition mention_fuel : nat := 12%nat.
+Definition mention_fuel : nat := 5%nat.
 Definition mentions_tracked (t : texpr) : bool := mentions tracked_types mention_fuel t.
 
 Definition yields_tracked (f : api_func) : bool := existsb mentions_tracked (f_results f).
